@@ -154,6 +154,37 @@ def run(ctx):
                 shutil.copy(f.replace("_after", ""), keep.replace(".cfb", "_before.cfb"))
                 C.add_violation(ctx, "foreign:" + rule_sig(v), "a foreign (spec-valid) layout mutated through the API is no longer well-formed: " + v[4:300],
                                 "# C03 violation: SpecCheck on %s (the layout before the calls: ..._before.cfb; the calls are in the evidence of C04's replay)\n# %s\n" % (keep, v[4:1500]))
+    # histories in which handles outlive their streams (the stream is removed or overwritten, a storage or another
+    # stream takes the freed slot) and are used afterwards, on the valid foreign layouts: whatever such a call
+    # answers, the image the history leaves must be well-formed (strict reopen + SpecCheck on the final bytes)
+    stale_stat = {}
+    bases = sorted(f for f in glob.glob(os.path.join(laydir, "L*.cfb")) if "_after" not in f and "_highbits" not in f)
+    if bases:
+        sdir = ctx.path("stale")
+        os.makedirs(sdir, exist_ok=True)
+        blist, slist, sres = ctx.path("stale.bases"), ctx.path("stale.list"), ctx.path("stale.res")
+        open(blist, "w").write("\n".join(bases) + "\n")
+        rc, out = C.harness(["damage", "--stale", "--seed", ctx.seed + 5, "--bases", blist, "--count", 600 if quick else 8000, "--max-ops", 14, "--outdir", sdir, "--list", slist], timeout=3000)
+        stale_stat, _, orc = C.parse_stats(out)
+        for msg in orc[:2]:
+            m = re.search(r"\[image (\S+) history (\S+)\]", msg)
+            text = open(m.group(2)).read() if m and os.path.exists(m.group(2)) else ""
+            keep = os.path.join(ctx.replaydir, "stale_handles.cfb")
+            if m and os.path.exists(m.group(1)):
+                shutil.copy(m.group(1), keep)
+            C.add_violation(ctx, "stale-handles:strict-reopen", msg[:400], "# C03: %s\n# final image kept as %s; the calls (on a valid foreign layout, see C04 for the generator):\n%s\n" % (msg[:1500], keep, text))
+        if rc == 0 and os.path.exists(slist):
+            C.driver(["speccheck"], slist, sres)
+            for f, v in zip(open(slist).read().splitlines(), open(sres).read().splitlines()):
+                direct += 1
+                if v.startswith("bad "):
+                    keep = os.path.join(ctx.replaydir, "stale_handles_illformed.cfb")
+                    shutil.copy(f, keep)
+                    hist_file = f.replace(".cfb", ".history")
+                    C.add_violation(ctx, "stale-handles:" + rule_sig(v), "after a history in which handles outlive their streams the image is no longer well-formed: " + v[4:300],
+                                    "# C03 violation: SpecCheck on %s\n# %s\n# the calls (on a valid foreign layout):\n%s\n" % (keep, v[4:1500], open(hist_file).read() if os.path.exists(hist_file) else ""))
+                    break
+        shutil.rmtree(sdir, ignore_errors=True)
     for f in glob.glob(os.path.join(laydir, "*")):
         os.remove(f)
     # the large file: > 236 FAT sectors in version 3 (two DIFAT sectors)
@@ -183,11 +214,13 @@ def run(ctx):
     ctx.coverage.update({
         "evaluations": judged + direct,
         "distinct_nontrivial": distinct,
-        "rule": P.RULE + ". C03: after every call SpecCheck (independent Lean checker: header, DIFAT, FAT marks and coverage, single ownership of sectors and mini sectors, no unowned non-free sector, header counts, chain length vs size, cutoff placement, search-tree order under CFB order, red-red, entry field rules, blank unallocated entries, whole sectors) judges the model image; the verdict counts where model and real image agree (length + hash); plus direct judgement of sampled real snapshots and of an 18 MB version-3 image with 275 FAT sectors and two DIFAT sectors (thorough: that history also in lock-step). evaluations = images judged",
+        "rule": P.RULE + ". C03: after every call SpecCheck (independent Lean checker: header, DIFAT, FAT marks and coverage, single ownership of sectors and mini sectors, no unowned non-free sector, header counts, chain length vs size, cutoff placement, search-tree order under CFB order, red-red, entry field rules, blank unallocated entries, whole sectors) judges the model image; the verdict counts where model and real image agree (length + hash); plus direct judgement of sampled real snapshots and of an 18 MB version-3 image with 275 FAT sectors and two DIFAT sectors (thorough: that history also in lock-step); plus histories on valid foreign layouts in which handles outlive their streams and are used afterwards, the final bytes reopened strictly and judged by SpecCheck. evaluations = images judged",
         "samples": samples,
         "traces_validated_against_impl": total_h,
         "images_judged_via_equal_hash": judged,
         "real_images_judged_directly": direct,
+        "stale_handle_histories": stale_stat.get("stale_histories", 0),
+        "stale_handle_calls": stale_stat.get("stale_handle_calls", 0),
         "histogram": hist,
     })
     return C.finish(ctx)
